@@ -31,7 +31,7 @@ TRUSTED_BASE = [
     "standard-library axioms only, as printed by Print Assumptions: " + ", ".join(sorted(ALLOWED_AXIOMS)),
     "Coq's primitive binary64 floats (Floats.PrimFloat.* operations, kernel primitives) in model/PavaFloat.v, the bit-exact twin of the mean PAVA; "
     "the standard library's specification axioms FloatAxioms.eqb_spec, FloatAxioms.ltb_spec, FloatAxioms.leb_spec (primitive comparisons = SpecFloat's) "
-    "under the three monotonicity theorems of proofs/PavaFloatMonotone.v (C12_float_monotone*), nowhere else",
+    "under the monotonicity theorems of proofs/PavaFloatMonotone.v (C12_float_monotone*, C12_float_boundary_strict, C01_float_twin_monotone), nowhere else",
     "Coq's primitive Uint63 integers with the standard library's specification axioms (Numbers.Cyclic.Int63.*): used only by corr/Decode.v to read float mantissas in generated case files; they appear in coqchk's cone of files importing it, never under a theorem",
     "translator translate/pyexpr.py + gen_r.py (Python ast -> Gallina), validated by round trip against the implementation",
     "skeleton/leaf extraction translate/skeleton.py and the committed skeleton files",
@@ -213,7 +213,7 @@ def coqchk(ctx, pid):
     # they are the standard library's, are named in the trusted base, and never occur under Print Assumptions of a theorem
     # ... and Coq's primitive float operations (Floats.PrimFloat.*: kernel primitives used by model/PavaFloat.v, the bit-exact
     # binary64 twin; the specification axioms of Floats.FloatAxioms are NOT among them and would be flagged)
-    # coqchk -o lists every axiom of every LOADED library: Floats.FloatAxioms (loaded by proofs/PavaFloatMonotone.v, C12 only)
+    # coqchk -o lists every axiom of every LOADED library: Floats.FloatAxioms (loaded by proofs/PavaFloatMonotone.v: C01 and C12)
     # declares 24 specification axioms, of which Print Assumptions shows three under the C12_float_monotone* theorems
     prim = sorted(a for a in short if a.startswith("Numbers.Cyclic.Int63.") or a.startswith("Floats.PrimFloat.") or a.startswith("Floats.FloatAxioms."))
     short = {a for a in short if a not in prim}
